@@ -381,6 +381,43 @@ def run(ctx):
                 break
         if bad:
             break
+    if not t.fail:
+        # sizes no small example reaches: values of tens of kilobytes whose one offending line (empty, or not starting with a
+        # blank) sits exactly at / around a multiple of the usual buffer sizes - rejected like short ones; large accepted
+        # values and paragraphs are written and re-read like small ones (B-02's large instances, same statement)
+        D = real.Deb822
+        for block in (4096, 8192, 65536):
+            for k in (1, 2):
+                for delta in (-1, 0, 1):
+                    for bad_line in ("", "Injected: yes"):
+                        off = k * block + delta
+                        head = "v"
+                        while len(head) < off - 1:
+                            head += "\n " + "c" * min(70, off - len(head) - 3)
+                        head = head[:off - 1] if len(head) > off - 1 else head
+                        if head.endswith("\n") or head.endswith("\n "):
+                            head = head[:-2] + "cc"[:2]
+                        value = head + "\n" + bad_line + "\n tail"
+                        d = D()
+                        d["A"] = "1"
+                        try:
+                            d["B"] = value
+                            accepted = True
+                        except ValueError:
+                            accepted = False
+                        t.case(key=("long value", block, k, delta, bad_line))
+                        if accepted:
+                            t.failed("a long value with an empty line / a continuation line that does not start with a blank was accepted",
+                                     offending_line=bad_line, offset_of_the_line=value.index("\n" + bad_line + "\n tail") + 1, value_length=len(value))
+                            break
+                    if t.fail:
+                        break
+                if t.fail:
+                    break
+            if t.fail:
+                break
+        if not t.fail:
+            _c02.large_instances(real, t)
     t.done(exhaustive=(ctx.tier != "quick"))
     ctx.level = "other"
     ctx.explanation = ("R-08d: the anti-drift lemmas between validator and parser patterns are PROVED for all lines of the stated "
